@@ -9,7 +9,11 @@ use zeromq::{Endpoint, ZmqError};
 use zvcore::evidence::{Check, Tier};
 use zvcore::refcodec as rc;
 
-const OPS: [&str; 11] = ["bind-tcp4", "bind-tcp6", "bind-localhost", "bind-ipc", "bind-duplicate", "unbind-oldest", "unbind-unknown", "connect-in-each", "exchange-established", "rebind-last-unbound", "150-failed-handshakes-on-oldest"];
+const OPS: [&str; 12] = ["bind-tcp4", "bind-tcp6", "bind-localhost", "bind-ipc", "bind-duplicate", "unbind-oldest", "unbind-unknown", "connect-in-each", "exchange-established", "rebind-last-unbound", "150-failed-handshakes-on-oldest", "MODE:back-to-back-on-current-thread-runtime"];
+/// Not an operation: as the first element of a sequence it selects the back-to-back mode - the calls follow each other
+/// with no suspension point of the application between them (on the current-thread runtime nothing a call spawned has
+/// been polled when the next call starts); the model is compared after the last call only.
+const MODE_AT_ONCE: u8 = 11;
 const FAILED_HANDSHAKES: usize = 150;
 
 struct Client {
@@ -66,8 +70,12 @@ async fn run_sequence(ty: Ty, seq: &[u8]) -> Vec<(String, String)> {
     let mut model: Vec<Endpoint> = Vec::new(); // in bind order
     let mut ever: Vec<Endpoint> = Vec::new();
     let mut clients: Vec<Client> = Vec::new();
+    let at_once = seq.first() == Some(&MODE_AT_ONCE);
     for (step, op) in seq.iter().enumerate() {
         let at = format!("{} — at step {} ({})", what, step, OPS[*op as usize]);
+        if *op == MODE_AT_ONCE {
+            continue;
+        }
         match *op {
             0..=3 => {
                 let spec = match *op {
@@ -219,7 +227,10 @@ async fn run_sequence(ty: Ty, seq: &[u8]) -> Vec<(String, String)> {
                 }
             }
         }
-        // bookkeeping after every step
+        // bookkeeping after every step (back-to-back mode: after the last one only)
+        if at_once && step + 1 < seq.len() {
+            continue;
+        }
         let mut got = sock.bound();
         let mut want = model.clone();
         got.sort_by_key(|e| e.to_string());
@@ -352,7 +363,7 @@ fn sequences(max_len: usize, max_len_with_failures: usize) -> Vec<Vec<u8>> {
     for _ in 0..max_len {
         let mut next = Vec::new();
         for s in &level {
-            for op in 0..OPS.len() as u8 {
+            for op in 0..MODE_AT_ONCE {
                 // operations that need a bound endpoint / a client are no-ops on an empty history: skip the duplicates
                 let binds = s.iter().filter(|o| **o <= 3).count();
                 if (op == 4 || op == 5 || op == 7) && binds == 0 {
@@ -392,6 +403,17 @@ fn all_cases(tier: Tier) -> Vec<(Ty, Vec<u8>)> {
     for s in sequences(l_pull, lf) {
         v.push((Ty::Pull, s));
     }
+    // back-to-back mode: bind/unbind calls only (the other operations wait for clients), on the current-thread runtime
+    let l_at_once = tier.pick(3, 4);
+    for ty in [Ty::Rep, Ty::Pull] {
+        for s in sequences(l_at_once, 0) {
+            if s.iter().all(|o| matches!(o, 0 | 3 | 4 | 5 | 6 | 9)) {
+                let mut t = vec![MODE_AT_ONCE];
+                t.extend(s);
+                v.push((ty, t));
+            }
+        }
+    }
     v
 }
 
@@ -413,7 +435,8 @@ pub fn shard(tier: Tier, i: usize, n: usize, private_net: bool) -> i32 {
             continue;
         }
         let (ty2, seq2) = (*ty, seq.clone());
-        let Some(viol) = e4::block_on_deadline(2, e4::CASE_DEADLINE, move || async move { run_sequence(ty2, &seq2).await }) else {
+        let workers = if seq.first() == Some(&MODE_AT_ONCE) { 0 } else { 2 };
+        let Some(viol) = e4::block_on_deadline(workers, e4::CASE_DEADLINE, move || async move { run_sequence(ty2, &seq2).await }) else {
             let names: Vec<&str> = seq.iter().map(|o| OPS[*o as usize]).collect();
             let (cl, msg) = e4::hung_or_panicked("runtime-hung".to_string(), format!("{} socket, operations {:?}: the sequence did not come back within {} s although every wait in it has a {} s horizon: a thread of the socket's runtime is blocked for ever", ty.name(), names, e4::CASE_DEADLINE.as_secs(), e4::HORIZON.as_secs()));
             println!("{}", json!({"case": k, "findings": [[cl, msg]]}));
@@ -459,7 +482,7 @@ pub fn run(tier: Tier, replay: Option<String>) -> i32 {
         }
         let ty = Ty::from_name(r["type"].as_str().unwrap()).unwrap();
         let seq: Vec<u8> = r["ops"].as_array().unwrap().iter().map(|o| OPS.iter().position(|x| Some(*x) == o.as_str()).unwrap() as u8).collect();
-        let rt = e4::runtime(2);
+        let rt = e4::runtime(if seq.first() == Some(&MODE_AT_ONCE) { 0 } else { 2 });
         let viol = rt.block_on(run_sequence(ty, &seq));
         e4::cleanup_ipc_dir();
         for (c, m) in &viol {
@@ -477,9 +500,9 @@ pub fn run(tier: Tier, replay: Option<String>) -> i32 {
     if results.is_none() {
         // no private network namespaces: run everything in this process, one sequence at a time
         isolated = false;
-        let rt = e4::runtime(2);
         let mut out = Vec::new();
         for (k, (ty, seq)) in cases.iter().enumerate() {
+            let rt = e4::runtime(if seq.first() == Some(&MODE_AT_ONCE) { 0 } else { 2 });
             let viol = rt.block_on(run_sequence(*ty, seq));
             out.push(json!({"case": k, "findings": viol}));
         }
@@ -551,7 +574,7 @@ pub fn run(tier: Tier, replay: Option<String>) -> i32 {
     ck.cov("sequences_by_length", json!(lens.iter().map(|(k, v)| (k.to_string(), *v)).collect::<std::collections::BTreeMap<_, _>>()));
     ck.cov("isolated_network_namespaces", isolated);
     ck.cov("exhaustive", skipped == 0);
-    ck.cov("rule", format!("every sequence of length <= {} over the 11 operations {:?} (operations that need a bound endpoint or an established client are omitted where they would be no-ops; the last operation - 150 clients that close in mid-handshake one after the other, then a well-behaved one - at most once and in sequences of length <= {}) on a real REP and a real PULL socket on the real tokio runtime: {} sequences; distinct by construction; non-trivial = contains at least one bind. After EVERY operation: return value as the reference model says (wildcard port resolved non-zero, duplicate bind fails and changes nothing, unbind of anything not bound - an endpoint bound earlier, a far miss, and near misses of every bound endpoint (same port under another host name or address, same ipc path with a suffix) - fails with NoSuchBind and changes nothing), binds() equals the model's set, every bound endpoint accepts a fresh connection by its text form and completes a message exchange, every endpoint not bound (any more) refuses at once, connections established earlier keep working across later unbinds. Additionally, in a child process with a lowered descriptor limit: REP and PULL with two bound endpoints, accept() on one of them failing once for lack of descriptors - the endpoint stays in binds(), accepts a fresh connection afterwards and exchanges a message, the other endpoint is unaffected. Each worker process runs in its own network namespace so that no other process can take a port this check expects to be free.", tier.pick(4, 5), OPS, tier.pick(3, 4), cases.len()));
+    ck.cov("rule", format!("every sequence of length <= {} over the 11 operations {:?} (operations that need a bound endpoint or an established client are omitted where they would be no-ops; the last operation - 150 clients that close in mid-handshake one after the other, then a well-behaved one - at most once and in sequences of length <= {}) on a real REP and a real PULL socket on the real tokio runtime (multi-thread), plus every sequence of length <= {} over the bind/unbind operations alone in back-to-back mode on the current-thread runtime (no suspension point of the application between the calls, nothing a call spawned has been polled when the next call starts; model compared after the last call): {} sequences; distinct by construction; non-trivial = contains at least one bind. After EVERY operation: return value as the reference model says (wildcard port resolved non-zero, duplicate bind fails and changes nothing, unbind of anything not bound - an endpoint bound earlier, a far miss, and near misses of every bound endpoint (same port under another host name or address, same ipc path with a suffix) - fails with NoSuchBind and changes nothing), binds() equals the model's set, every bound endpoint accepts a fresh connection by its text form and completes a message exchange, every endpoint not bound (any more) refuses at once, connections established earlier keep working across later unbinds. Additionally, in a child process with a lowered descriptor limit: REP and PULL with two bound endpoints, accept() on one of them failing once for lack of descriptors - the endpoint stays in binds(), accepts a fresh connection afterwards and exchanges a message, the other endpoint is unaffected. Each worker process runs in its own network namespace so that no other process can take a port this check expects to be free.", tier.pick(4, 5), &OPS[..11], tier.pick(3, 4), tier.pick(3, 4), cases.len()));
     ck.sample(json!({"type":"REP","ops":["bind-tcp4","connect-in-each","unbind-oldest","exchange-established"]}));
     ck.assume("OS schedules are not enumerated; conditions the statement ties to a return are tested immediately after the return");
     ck.conclude()
